@@ -53,8 +53,8 @@ def key_run(maxsegs):
     d = vlib.scratch("key-")
     try:
         consts = dict(Methods={"GET", "HEAD"}, Hosts={"h.example", "H.EXAMPLE", "other.example"},
-                      Segs={"a", "b", ".", "..", "", "a|b", "a%7Cb"}, LastSegs={"a", "b", "a|b", "a%7Cb"},
-                      Queries={"NONE", "c", "b|c", "x=1&y=2"}, MaxSegs=maxsegs,
+                      Segs={"a", "b", ".", "..", "", "a|b", "a%7Cb", "a%3Fb"}, LastSegs={"a", "b", "a|b", "a%7Cb", "a%3Fb"},
+                      Queries={"NONE", "b", "c", "b|c", "x=1&y=2"}, MaxSegs=maxsegs,
                       CaseFile=os.path.join(d, "cases.ndjson"), ResultFile=os.path.join(d, "res.ndjson"))
         ncases, r = _gen_and_run("CacheKeyGen", "CacheKeyJudge", consts, "key", d)
         m = re.search(r'<<\s*"KEY-RESULT",\s*(\d+),\s*(\d+),\s*(\d+),\s*(\d+),(.*)>>\s*\n', r["out"], re.S)
